@@ -295,7 +295,9 @@ var abandoned bool
 // Abandoned reports whether a call of this process was abandoned.
 func Abandoned() bool { return abandoned }
 
-const libBudget = 6 * time.Second
+// libBudget is a backstop only: under heavy machine load a legitimate call has been seen to
+// exceed 6 s of wall clock once; a real runaway loop is reported after this budget.
+const libBudget = 60 * time.Second
 
 // stepLimitReader fails a read loop that never ends (reader-driven non-termination).
 type stepLimitReader struct {
